@@ -97,6 +97,33 @@ example : estimate gappy 20 400 = .gas 200 ∧ gappy 200 = some false ∧ gappy 
   refine ⟨?_, by decide, by decide⟩
   simp [estimate, binSearch, gappy]
 
+/-- **C08 (estimate, whole wrapper).** Whatever gas the caller offers, whatever the block gas limit and the gas cap
+of the request: an estimate that is returned is a gas limit the call succeeds with, and it never exceeds the cap. -/
+theorem C08_estimateGas (exec : Exec) (argsGas : Option Nat) (maxGas : Int) (reqCap g : Nat)
+    (h : estimateGas exec argsGas maxGas reqCap = .gas g) : exec g = some false :=
+  C08_estimate exec 20999 _ g h
+
+theorem searchBound_le_cap (argsGas : Option Nat) (maxGas : Int) (reqCap : Nat) (hc : reqCap ≠ 0) : searchBound argsGas maxGas reqCap ≤ reqCap := by
+  unfold searchBound
+  generalize rawBound argsGas maxGas reqCap = hi
+  by_cases h : reqCap ≠ 0 ∧ hi > reqCap
+  · rw [if_pos h]; exact Nat.le_refl _
+  · rw [if_neg h]
+    have : ¬ hi > reqCap := fun hgt => h ⟨hc, hgt⟩
+    omega
+
+theorem C08_estimateGas_capped (exec : Exec) (argsGas : Option Nat) (maxGas : Int) (reqCap g : Nat) (hc : reqCap ≠ 0)
+    (hlo : 20999 < searchBound argsGas maxGas reqCap) (h : estimateGas exec argsGas maxGas reqCap = .gas g) : g ≤ reqCap :=
+  Nat.le_trans (C08_estimate_range exec 20999 _ g hlo h).2 (searchBound_le_cap argsGas maxGas reqCap hc)
+
+/-- the order matters: with the cap remembered before the recap, a call that needs more than the cap gets the cap
+back as its "estimate" (caller gas 10 000 000, cap 50 000, the call needs 198 220) -/
+theorem C08_stale_cap_returns_unexecutable :
+    estimateGasStale (fun g => some (decide (g < 198220))) (some 10000000) (-1) 50000 = .gas 50000 ∧
+    (fun g => some (decide (g < 198220))) 50000 = some true ∧
+    estimateGas (fun g => some (decide (g < 198220))) (some 10000000) (-1) 50000 = .error := by
+  refine ⟨?_, rfl, ?_⟩ <;> simp [estimateGasStale, estimateGas, estimate, searchBound, rawBound, binSearch]
+
 end Evermint.Query
 
 namespace Evermint.CDbG
